@@ -327,6 +327,9 @@ impl PriceLevel {
             } => {
                 // Find the order
                 if let Some(order) = self.orders.find(order_id) {
+                    #[cfg(pricelevel_verif)]
+                    crate::verif_hook::pause("amend.after_find");
+
                     // Get current quantities
                     let old_visible = order.visible_quantity();
                     let old_hidden = order.hidden_quantity();
